@@ -192,6 +192,12 @@ def check_format_input_orientation(inp, init_format=False):
         inp = Rotation.from_quat(inpQ)
     else:
         inpQ = inp.as_quat()
+        if inpQ.size == 0:
+            raise MagpylibBadUserInput(
+                "Input parameter `orientation` must be `None` or scipy `Rotation` object "
+                "with at least one rotation.\n"
+                "Instead received an empty Rotation."
+            )
     # return
     if init_format:
         return np.reshape(inpQ, (-1, 4))
